@@ -251,6 +251,7 @@ class Repo:
         pkg_dir = os.path.join(self.root, self.package)
         if not os.path.isdir(pkg_dir):
             raise AnalysisError(f"package directory {pkg_dir} missing")
+        parsed = []
         for dirpath, dirnames, filenames in os.walk(pkg_dir):
             dirnames[:] = sorted(d for d in dirnames if d != "__pycache__")
             for fn in sorted(filenames):
@@ -272,13 +273,25 @@ class Repo:
                     tree = ast.parse(src, filename=path)
                 except SyntaxError as e:
                     raise AnalysisError(f"{rel} does not parse: {e}")
-                if os.environ.get("AGILINT_CANON", "1") != "0":
-                    canonicalise_comparisons(tree)
-                    canonicalise_branches(tree)
-                mod = Mod(modname, path, rel, src, tree, is_pkg=is_pkg)
-                self._index(mod)
-                self.mods[modname] = mod
-                self.n_files += 1
+                parsed.append((modname, path, rel, src, tree, is_pkg))
+        # front-end normalisation (behaviour-preserving): helper inlining, guard clauses, comparison / branch orientation
+        self.n_inlined = 0
+        if os.environ.get("AGILINT_INLINE", "1") != "0":
+            from .inline import canonicalise_guards, canonicalise_negations, canonicalise_quantifiers, count_defs, inline_helpers
+            counts = count_defs([t for _, _, _, _, t, _ in parsed])
+            for _, _, _, _, tree, _ in parsed:
+                self.n_inlined += inline_helpers(tree, counts)
+                canonicalise_guards(tree)
+                canonicalise_quantifiers(tree)
+                canonicalise_negations(tree)
+        for modname, path, rel, src, tree, is_pkg in parsed:
+            if os.environ.get("AGILINT_CANON", "1") != "0":
+                canonicalise_comparisons(tree)
+                canonicalise_branches(tree)
+            mod = Mod(modname, path, rel, src, tree, is_pkg=is_pkg)
+            self._index(mod)
+            self.mods[modname] = mod
+            self.n_files += 1
 
     def _index(self, mod: Mod) -> None:
         for node in ast.walk(mod.tree):
